@@ -47,6 +47,8 @@ ASSUMPTIONS = [
     "sqrt (inverse consistency norm, lame_parameters) and powers with non-integer exponents (grad_loss p, q) are computed by the "
     "harness in float64 and passed to the model as tables (argument, value); the model looks its exact argument up with a "
     "relative check of 1e-9 and fails visibly otherwise; theorems carry `r*r = x and r >= 0` / monotonicity hypotheses",
+    "lame_parameters: the comparisons `< 0` and `< 1e-9` are decided on exact values; the one input family whose float result "
+    "lies within rounding of a threshold ((lambda, E = 0): mu = (sqrt(9 lambda^2) - 3 lambda)/4) is not generated",
     "mode='gaussian' and sigma > 0 (Gaussian pre-smoothing) are not modelled (they need exp); they are exercised by the "
     "property oracles only (null space / scaling / sign)",
     "mode='bspline': the cubic B-spline weights are taken from cubic_bspline_interpolation_weights as given (proved in C14)",
@@ -54,8 +56,8 @@ ASSUMPTIONS = [
     "the reduced loss of an affine field being non-zero for a padded scheme is reported as a finding, not carved out",
     "inverse_consistency_loss is modelled for batch size 1, flow fields sampled on the grid passed as `grid` (grid_reshape is then "
     "the identity), and float margins for which int(margin*n) agrees in float and exact arithmetic",
-    "module classes (losses.flow.*, losses.bspline.BSplineBending) only forward their attributes; the Elasticity class is run "
-    "without `stride` in the correspondence stream (it drops the argument: finding F-17f, checked by the `modules` oracle)",
+    "module classes (losses.flow.*, losses.bspline.BSplineBending) only forward their attributes (checked by the `loss` stream "
+    "with via=module and by the `modules` oracle)",
 ]
 TRUSTED = ["model file Deepali/Model/Regularizers.lean is a hand transcription of losses/functional.py (grad_loss, bending_loss, "
            "curvature_loss, diffusion_loss, divergence_loss, lame_parameters, elasticity_loss, total_variation_loss, "
@@ -184,7 +186,7 @@ def gen_shape_for(rng, D, mode):
 
 
 def gen_lame_valid(rng) -> dict:
-    """a material parameter pair accepted by the code (the two defective branches included, rarely)."""
+    """a material parameter pair accepted by the code."""
     lam = rng.choice([0.0, 0.25, 0.5, 1.5, 2.0, 0.3])
     mu = rng.choice([0.0, 0.125, 0.5, 0.75, 1.0, 0.7])
     if lam + mu == 0:
@@ -238,13 +240,6 @@ def _loss_case(rng, kind, mode, D, tier):
         c["p"], c["q"] = gen_pq(rng)
     if kind == "elasticity":
         c["lame"] = gen_lame_valid(rng)
-        if mode == "bspline":
-            # the only shapes for which the code does not raise: (n - 3) * stride == n
-            if rng.random() < 0.5:
-                c["shape"] = [6] * D
-                c["stride"] = 2
-            if c["via"] == "module":
-                c["stride"] = None      # Elasticity.__init__ drops `stride` (finding F-17f; see `modules` oracle)
     return c
 
 
@@ -460,6 +455,10 @@ def gen_lame(rng, tier):
                 for name, b in zip(LAME_NAMES, bits):
                     if b:
                         lm[name] = rng.choice(LAME_VALUES[name]) if rng.random() < 0.7 else round(rng.uniform(0.01, 3.0), 3)
+                if lm.get("first_parameter") is not None and lm.get("youngs_modulus") == 0.0 and sum(bits) == 2:
+                    # (lambda, E = 0): mu = (-3 lambda + sqrt(9 lambda^2)) / 4 sits exactly on the `< 0` threshold, which
+                    # float rounding of the square root decides either way (see ASSUMPTIONS)
+                    lm["youngs_modulus"] = 1.0
                 yield {"lame": lm}
     for _ in range(_n(tier, 30, 600)):      # consistent pairs derived from one (lambda, mu)
         yield {"lame": gen_lame_valid(rng)}
@@ -1100,6 +1099,10 @@ def check_ic_units(c):
     if e <= 1e-5 * max(1.0, abs(want) * (nfg if c["red"] == "sum" else 1)):
         return None
     # classify
+    if c["red"] == "sum" and nfg > 1 and abs(float(r) * nfg - want * nfg) > 1e-5 * max(1.0, abs(want) * nfg) \
+            and abs(float(r) * int(keep.sum()) - want * nfg) <= 1e-5 * max(1.0, abs(want) * nfg):
+        return ("C17:inverse_consistency:reduction-sum-is-mean", f"reduction='sum' returns {float(r):.6f}; sum of the per-point errors is "
+                f"{want * nfg:.6f} ({nfg} points x {want:.6f})")
     if c["units"] != "cube" and not c["ac"]:
         # would the value be right under the other convention?
         return ("C17:inverse_consistency:units-ignore-align_corners",
